@@ -158,7 +158,15 @@ func protoOne(c protoCase) {
 		rd := concatReader(salt, lib.NewRng("c18/proto/blind/"+id, c.run*2+j))
 		var err error
 		lib.Eval()
-		if p := lib.Try("blindrsa.Client.Blind", prepared, func() { s.blinded, s.state, err = client.Blind(rd, prepared) }); p != nil || err != nil {
+		// the prepared message is handed over in a buffer that is overwritten
+		// as soon as Blind returns: the state must not live in it
+		prepIn := lib.Clone(prepared)
+		if p := lib.Try("blindrsa.Client.Blind", prepared, func() {
+			s.blinded, s.state, err = client.Blind(rd, prepIn)
+			for i := range prepIn {
+				prepIn[i] ^= 0xA5
+			}
+		}); p != nil || err != nil {
 			protoViol(c, "blind-fails", "blindrsa.Client.Blind", "err", err, "panic", fmt.Sprint(p != nil), "prepared", prepared)
 			return
 		}
